@@ -739,7 +739,10 @@ func (f *Frame) exec(instr ssa.Instruction, st *State) {
 	case *ssa.MakeSlice:
 		ln, cp := f.val(in.Len), f.val(in.Cap)
 		e.check(f, st, "no-panic.makeslice", "make: len and cap non-negative and len <= cap",
-			sAnd("(<= 0 "+e.idxTerm(ln)+")", "(<= "+e.idxTerm(ln)+" "+e.idxTerm(cp)+")", "(<= "+e.idxTerm(cp)+" 4611686018427387904)"), in.Pos())
+			sAnd("(<= 0 "+e.idxTerm(ln)+")", "(<= "+e.idxTerm(ln)+" "+e.idxTerm(cp)+")"), in.Pos())
+		// a successful allocation fits the address space (out-of-memory is outside every property)
+		e.assume(st.cond, "(<= "+e.idxTerm(cp)+" 4611686018427387904)")
+		e.assumed["allocations succeed: sizes beyond the address space / out-of-memory are not checked"] = true
 		et := in.Type().Underlying().(*types.Slice).Elem()
 		arr := e.alloc(st)
 		srt := e.sortOf(et)
@@ -754,6 +757,7 @@ func (f *Frame) exec(instr ssa.Instruction, st *State) {
 		st.mapN[k] = e.define("mn", "(Array Int Int)", fmt.Sprintf("(store %s %s 0)", e.getMapN(st, mt), id))
 		f.set(in, Val{T: in.Type(), S: id})
 	case *ssa.MakeChan:
+		e.check(f, st, "no-panic.makechan", "make(chan): size non-negative", "(<= 0 "+e.idxTerm(f.val(in.Size))+")", in.Pos())
 		id := e.alloc(st)
 		f.set(in, Val{T: in.Type(), S: id})
 	case *ssa.MakeClosure:
